@@ -98,4 +98,10 @@ META["C15"] = {
     "technique": "exhaustive grid enumeration + property-based testing (rapid) with tree mutators + native go fuzzing; oracle: reference COSE_Key rules, encode/decode fixpoint, gate model",
 }
 
+META["C16"] = {
+    "text": "Property-based testing with constructed boundary cases: (r, s) pairs and complete valid signatures whose halves have leading zero bytes (probability 2^-8 .. 2^-16 per random signature) are built by the harness with math/big, so that both signing paths are compared byte for byte with an independent left-pad and the verifier is offered every alternative spelling and every length around 2n of a signature that is known to be valid.",
+    "note": TRUST,
+    "technique": "property-based testing (rapid) with harness-constructed ECDSA signatures; oracle: independent fixed-width encoder, crypto/ecdsa ground truth, exhaustive length sweep per case",
+}
+
 NOT_APPLICABLE = {}
